@@ -44,7 +44,7 @@ private:
 		template <typename ...Args>
 		auto operator() (Args && ...args) const
 			-> typename std::enable_if<internal_::CanInvoke<Callback, Args ...>::value, void>::type {
-			if(--data->triggerCount <= 0) {
+			if(data->triggerCount <= 1 || --data->triggerCount <= 0) {
 				data->dispatcher.removeListener(data->event, data->handle);
 			}
 			data->listener(std::forward<Args>(args)...);
@@ -127,7 +127,7 @@ private:
 		template <typename ...Args>
 		auto operator() (Args && ...args) const
 			-> typename std::enable_if<internal_::CanInvoke<Callback, Args ...>::value, void>::type {
-			if(--data->triggerCount <= 0) {
+			if(data->triggerCount <= 1 || --data->triggerCount <= 0) {
 				data->callbackList.remove(data->handle);
 			}
 			data->listener(std::forward<Args>(args)...);
